@@ -381,8 +381,17 @@ def simulate(rng, tmp, p):
                     g = sorted([sim.haps[c][s][0][i], sim.haps[c][s][1][i]])
                     if p.get("gt_override") and (c, i, s) in p["gt_override"]:
                         g = p["gt_override"][(c, i, s)]
+                    noise = p.get("gt_noise")
+                    if noise:
+                        rr = rng.random()
+                        if rr < noise[1]:
+                            g = None
+                        elif rr < noise[1] + noise[0]:
+                            g = rng.choice([[0, 0], [0, 1], [1, 1]])
+                    if g is None:
+                        g = [".", "."]
                     gt = "/".join(str(x) for x in g)
-                    if rng.random() < p.get("unsorted_gt", 0.0) and g[0] != g[1]:
+                    if rng.random() < p.get("unsorted_gt", 0.0) and g[0] != g[1] and "." not in g:
                         gt = "%d/%d" % (g[1], g[0])
                 else:
                     gt = rng.choice(["0/1", "0/0", "1/1"])
@@ -408,3 +417,64 @@ def simulate(rng, tmp, p):
     else:
         sim.ped = None
     return sim
+
+
+def truth_phased_doc(sim, rng, tag="PS", block_len=(3, 8), samples=None, interleave=False, flip_blocks=True, no_ps=False):
+    """A copy of sim.doc in which heterozygous calls of `samples` carry the TRUE phase, encoded with PS or HP, cut into
+    blocks of random length (optionally two interleaved block series). Returns (doc, blocks) where
+    blocks[(chrom, sample)] = {block_id: [(pos1, (a0, a1)), ...]}."""
+    import copy
+
+    from wv.gen import vcf as gvcf
+
+    d = gvcf.Doc()
+    d.meta = list(sim.doc.meta)
+    d.samples = list(sim.doc.samples)
+    d.contigs = list(sim.doc.contigs)
+    if tag == "PS":
+        if not no_ps:
+            d.meta.append('##FORMAT=<ID=PS,Number=1,Type=Integer,Description="Phase set identifier">')
+    else:
+        d.meta.append('##FORMAT=<ID=HP,Number=.,Type=String,Description="Phasing haplotype identifier">')
+    d.records = copy.deepcopy(sim.doc.records)
+    samples = samples or sim.samples
+    blocks = {}
+    for s in samples:
+        si = d.samples.index(s)
+        for c in sim.chroms:
+            state = [None, None]  # up to two interleaved series: [block_id, remaining, flip]
+            for r in d.records:
+                if r["chrom"] != c:
+                    continue
+                i = [v.pos + 1 for v in sim.variants[c]].index(r["pos"])
+                a0, a1 = sim.haps[c][s][0][i], sim.haps[c][s][1][i]
+                call = r["calls"][si]
+                if a0 == a1 or "." in call["GT"]:
+                    continue
+                k = rng.randint(0, 1) if interleave else 0
+                st = state[k]
+                if no_ps:
+                    # '|' genotypes without any PS field: one unnamed phase set (0) per chromosome
+                    if st is None:
+                        st = state[k] = [0, 10**9, rng.random() < 0.5 and flip_blocks]
+                elif st is None or st[1] <= 0:
+                    st = state[k] = [r["pos"], rng.randint(*block_len), rng.random() < 0.5 and flip_blocks]
+                st[1] -= 1
+                al = (a1, a0) if st[2] else (a0, a1)
+                blocks.setdefault((c, s), {}).setdefault(st[0], []).append((r["pos"], (str(al[0]), str(al[1]))))
+                if tag == "PS":
+                    call["GT"] = "%d|%d" % al
+                    if not no_ps:
+                        call["PS"] = str(st[0])
+                else:
+                    g = sorted(al)
+                    call["GT"] = "%d/%d" % (g[0], g[1])
+                    # k-th GT allele lies on haplotype (index of that allele in al) + 1
+                    call["HP"] = ",".join("%d-%d" % (st[0], al.index(x) + 1) for x in g)
+        key = "PS" if tag == "PS" else "HP"
+    for r in d.records:
+        if any(key in c for c in r["calls"]):
+            r["fmt"] = r["fmt"] + [key]
+            for c in r["calls"]:
+                c.setdefault(key, ".")
+    return d, blocks
